@@ -181,6 +181,12 @@ func (m c12Mutant) apply(src []byte, msgs []gobMsg) []byte {
 			out[m.Off+i] = byte(rg.Intn(256))
 		}
 		return out
+	case "pair":
+		// two separate spots damaged at once: a bit of the byte at Off (bit Len&7) and a bit of the byte at Arg
+		out := append([]byte(nil), src...)
+		out[m.Off] ^= 1 << uint(m.Len&7)
+		out[m.Arg] ^= 0x10
+		return out
 	case "dup-message":
 		a := msgs[m.Off]
 		out := append([]byte(nil), src[:a.End]...)
@@ -306,7 +312,7 @@ func (rn *c12Runner[V]) try(m c12Mutant) {
 	case m.Kind == "truncate":
 		m.Rd = 1 + m.Off%3
 		rn.tryBytes(m, data)
-	case (m.Off+m.Arg)%8 == 0:
+	case m.Kind != "pair" && (m.Off+m.Arg)%8 == 0:
 		m.Rd = 1
 		rn.tryBytes(m, data)
 	}
@@ -585,6 +591,39 @@ func (rn *c12Runner[V]) enumerate(exhaustive bool, sample int) {
 			rn.try(m)
 		}
 		cnt++
+	}
+	// two cooperating spots: every byte of the type descriptors and of the block headers (what no checksum covers)
+	// together with a byte inside an entry block's payload (what the checksum is there for). A decoder that lets
+	// the first kind of damage switch the check off is only caught with both.
+	{
+		var spots, payload []int
+		for _, g := range rn.msgs {
+			switch {
+			case g.TypeDef:
+				for o := g.Start; o < g.End; o++ {
+					spots = append(spots, o)
+				}
+			case g != rn.meta && g.End-g.Start > 48:
+				for o := g.Start; o < g.Start+24; o++ {
+					spots = append(spots, o)
+				}
+				payload = append(payload, g.Start+40, (g.Start+g.End)/2, g.End-3)
+			}
+		}
+		if !exhaustive && len(payload) > 6 {
+			payload = payload[:6]
+		}
+		for _, o := range spots {
+			for pi, po := range payload {
+				if po == o {
+					continue
+				}
+				if mine(cnt) {
+					rn.try(c12Mutant{Kind: "pair", Off: o, Arg: po, Len: (o + pi) % 8})
+				}
+				cnt++
+			}
+		}
 	}
 	// whole-message surgery
 	for i := range rn.msgs {
